@@ -193,7 +193,18 @@ func runC28(c *eng.Ctx) {
 
 	// R4.
 	forbidden := map[string]bool{"os.Remove": true, "os.RemoveAll": true, "os.Rename": true, "os.Create": true, "os.Truncate": true, "os.WriteFile": true, "syscall.Unlink": true}
-	for _, fn := range []*ssa.Function{acq, rel, lock, unlock} {
+	r4fns := []*ssa.Function{acq, rel, lock, unlock}
+	// every function of the locking package, NewLocker and its helpers included:
+	// publishing the lock file by renaming a staged file onto the path replaces
+	// the inode another process may already have locked.
+	seenR4 := map[*ssa.Function]bool{acq: true, rel: true, lock: true, unlock: true}
+	for _, f := range c.P.ModuleFuncs(lockingPkg) {
+		if !seenR4[f] && f.Parent() == nil {
+			seenR4[f] = true
+			r4fns = append(r4fns, f)
+		}
+	}
+	for _, fn := range r4fns {
 		if fn == nil {
 			continue
 		}
